@@ -5,9 +5,13 @@ package cmp
 
 // ---- entry points (C20): none of them may panic, whatever the arguments
 //@ func Keygen
+// (C09) the session tag is derived under this protocol's OWN identifier (pairwise distinct across all start functions)
+//@   assert_at[C09] Start "return keygen.Start(info, pl, nil)": arg0.ProtocolID == "cmp/keygen-threshold" && arg0.FinalRoundNumber == 5
 //@   nopanic[C20]
 //@   ensures result != nil
 //@ func Refresh
+// (C09) the session tag is derived under this protocol's OWN identifier (pairwise distinct across all start functions)
+//@   assert_at[C09] Start "return keygen.Start(info, pl, config)": arg0.ProtocolID == "cmp/refresh-threshold" && arg0.FinalRoundNumber == 5
 //@   nopanic[C20]
 //@   requires config != nil ==> cfgwf(config)
 //@   ensures result != nil
